@@ -18,14 +18,15 @@ import (
 // ---------------------------------------------------------------------------------------------
 // alphabets
 
-var Keys = []string{"a", "b", "ab", "a/b", "k1"}
+var Keys = []string{"a", "a/", "b", "ab", "a/b", "k1", `c\d`} // "a" and "a/" differ only by a trailing slash; one key holds a backslash
 var Vals = [][]byte{nil, {}, []byte("x"), []byte("yy")}
 
 // Patterns: the subset on which gobwas/glob (no separators) and Redis MATCH agree.
-var Patterns = []string{"*", "?", "a*", "*b", "a?", "[ab]", "[a-c]*", "k1", "a/b", "a/*", "??", "zz*", "*/*", "[k]1"}
+// The last four use backslash escapes (\\ = a literal backslash, \x = the literal character x), no other glob syntax.
+var Patterns = []string{"*", "?", "a*", "*b", "a?", "[ab]", "[a-c]*", "k1", "a/b", "a/*", "??", "zz*", "*/*", "[k]1", `c\\d`, `a\/b`, `c\d`, `c\\*`}
 
 // Expiry codes: offset from "now" at the time of the write. 0 = no expiry.
-var ExpOffsets = []time.Duration{0, time.Hour, 3 * time.Hour, 100 * time.Hour, -time.Hour}
+var ExpOffsets = []time.Duration{0, time.Hour, 3 * time.Hour, 100 * time.Hour, -time.Hour, 0}
 
 const (
 	ExpNone    = 0
@@ -33,6 +34,7 @@ const (
 	Exp3h      = 2
 	Exp100h    = 3
 	ExpPast    = 4 // written already expired (in-memory backend only; Redis clamps TTLs to >= 1ms)
+	ExpNever   = 5 // an expiry centuries ahead (year 2500 and beyond): never reached, and beyond what int64 nanoseconds can express
 	garbageVer = "01ARZ3NDEKTSV4RRFFQ69G5FAV"
 )
 
@@ -120,7 +122,7 @@ func (m *Model) alive(k string) *mrec {
 func (m *Model) write(k string, val []byte, exp int) *mrec {
 	m.gen++
 	r := &mrec{val: val, gen: m.gen}
-	if exp != ExpNone {
+	if exp != ExpNone && exp != ExpNever {
 		r.hasExp = true
 		r.expAt = m.elapsed + ExpOffsets[exp]
 	}
@@ -164,6 +166,9 @@ func (d *Driver) expiry(m *Model, exp int) *time.Time {
 		return nil
 	}
 	t := d.Now().Add(ExpOffsets[exp])
+	if exp == ExpNever {
+		t = time.Date(2500+int(d.Now().UnixNano()%7000), 1, 1, 0, 0, 0, 0, time.UTC)
+	}
 	return &t
 }
 
@@ -760,6 +765,11 @@ func globMatch(pat, s string) bool {
 		return s == ""
 	}
 	switch pat[0] {
+	case '\\':
+		if len(pat) < 2 {
+			return false
+		}
+		return s != "" && s[0] == pat[1] && globMatch(pat[2:], s[1:])
 	case '*':
 		for i := 0; i <= len(s); i++ {
 			if globMatch(pat[1:], s[i:]) {
